@@ -99,73 +99,10 @@ def rule_effects(repo):
                     r.ok(m, f'Bits.{name}', 'writes _uint, returns self')
                 else:
                     r.bad(m, f'Bits.{name}', 'return value / store', "@= must update _uint in place and return self", f.lineno)
-    # generated bitstruct __ilshift__ / _flip: leaf-wise delegation
-    sm = repo.mod(STRUCTS)
-    f = sm.get_func('_mk_ff_fn')
-    inner = [n for n in f.body if isinstance(n, ast.FunctionDef)]
-    if len(inner) != 1:
-        raise AnalysisError("_mk_ff_fn: expected one recursive generator")
-    g = inner[0]
-    leaf_rets = [x for x in ast.walk(g) if isinstance(x, ast.Return) and isinstance(x.value, ast.Tuple)
-                 and all(isinstance(e, ast.List) and len(e.elts) == 1 and isinstance(e.elts[0], ast.JoinedStr) for e in x.value.elts)]
-    if len(leaf_rets) != 1:
-        raise AnalysisError("_mk_ff_fn: leaf templates not found")
-    pref = g.args.args[1].arg
-
-    def tmpl(js):
-        out = ''
-        for v in js.values:
-            if isinstance(v, ast.Constant):
-                out += v.value
-            elif isinstance(v, ast.FormattedValue) and norm(v.value) == pref:
-                out += 'P'
-            else:
-                out += '?'
-        return out
-    t_il, t_fl = [tmpl(e.elts[0]) for e in leaf_rets[0].value.elts]
-    try:
-        a = ast.parse(t_il).body[0]
-        b = ast.parse(t_fl).body[0]
-    except SyntaxError:
-        a = b = None
-    ok = isinstance(a, ast.AugAssign) and isinstance(a.op, ast.LShift) and norm(a.target) == 'self.P' and norm(a.value) == 'other.P'
-    (r.ok if ok else r.bad)(sm, '_mk_ff_fn', f"leaf <<= template `{t_il}`",
-                            *([] if ok else ["struct <<= must delegate leaf-wise: self.<leaf> <<= other.<leaf>", g.lineno]))
-    ok = isinstance(b, ast.Expr) and norm(b.value) == 'self.P._flip()'
-    (r.ok if ok else r.bad)(sm, '_mk_ff_fn', f"leaf _flip template `{t_fl}`",
-                            *([] if ok else ["struct _flip must flip every leaf: self.<leaf>._flip()", g.lineno]))
-    # list recursion covers every index, both result lists extended; field loop covers all fields
-    loops = [n for n in ast.walk(g) if isinstance(n, ast.For)]
-    ok = len(loops) == 1 and norm(loops[0].iter) in ('range(len(type_))',) and not any(
-        isinstance(n, (ast.Break, ast.Continue, ast.If)) for n in ast.walk(loops[0]))
-    if ok:
-        ext = [norm(n) for n in ast.walk(loops[0]) if isinstance(n, ast.Call) and isinstance(n.func, ast.Attribute) and n.func.attr == 'extend']
-        ok = len(ext) == 2
-    (r.ok if ok else r.bad)(sm, '_mk_ff_fn', 'list recursion over range(len(type_))',
-                            *([] if ok else ["every list element must contribute its <<= and _flip lines", g.lineno]))
-    floops = [n for n in f.body if isinstance(n, ast.For)]
-    ok = len(floops) == 1 and norm(floops[0].iter) == 'fields.items()' and not any(
-        isinstance(n, (ast.Break, ast.Continue, ast.If)) for n in ast.walk(floops[0])) and \
-        len([n for n in ast.walk(floops[0]) if isinstance(n, ast.Call) and isinstance(n.func, ast.Attribute) and n.func.attr == 'extend']) == 2
-    (r.ok if ok else r.bad)(sm, '_mk_ff_fn', 'field loop over fields.items()',
-                            *([] if ok else ["every field must contribute its <<= and _flip lines", f.lineno]))
-    # the two generated functions are bound to the right names, __ilshift__ returns self
-    creates = [n for n in ast.walk(f) if isinstance(n, ast.Call) and norm(n.func) == '_create_fn']
-    names = [norm(c.args[0]) for c in creates]
-    ok = names == ["'__ilshift__'", "'_flip'"] and 'return self' in norm(creates[0].args[2])
-    if ok:
-        # which list feeds which function
-        ok = 'ilshift' in norm(creates[0].args[2]) and 'flip' in norm(creates[1].args[2]) and 'ilshift' not in norm(creates[1].args[2])
-    (r.ok if ok else r.bad)(sm, '_mk_ff_fn', '_create_fn(__ilshift__), _create_fn(_flip)',
-                            *([] if ok else ["generated __ilshift__ must use the <<= lines and return self; _flip the flip lines", f.lineno]))
-    pc = sm.get_func('_process_class')
-    binds = [s for s in ast.walk(pc) if isinstance(s, ast.Assign) and '_mk_ff_fn' in norm(s.value)]
-    bind = [norm(s) for s in binds]
-    ok = len(binds) == 1 and isinstance(binds[0].targets[0], ast.Tuple) and \
-        [norm(e) for e in binds[0].targets[0].elts] == ['cls.__ilshift__', 'cls._flip']
-    (r.ok if ok else r.bad)(sm, '_process_class', bind[0] if bind else 'binding of _mk_ff_fn',
-                            *([] if ok else ["_mk_ff_fn results must be bound as (cls.__ilshift__, cls._flip)", pc.lineno]))
-    r.require_floor(40)
+    # the generated bitstruct __ilshift__ / _flip (leaf-wise staging and commit, binding to the class) are decided semantically by
+    # C06's R-C06-leaf / -grid / -wiring, which this module runs by dependency (rule_struct_registers*): an earlier shape match
+    # of the generator's templates here fired on behaviour-preserving rewrites of the generator (emitted loops, enumerate)
+    r.require_floor(30)
     return r
 
 
@@ -828,8 +765,36 @@ def rule_meta_cache(repo):
     return [rule_cache_scope(repo), rule_index_scope(repo)]
 
 
+def rule_replace_marks_registers(repo):
+    """a port of a swapped-in component that a parent update_ff block writes is a register: replace_component must mark it for double
+    buffering like elaboration does.  Shared with C15 (R-C15-saved; C15's known finding D22 about constraint tables is not a C07 matter)."""
+    from rules.c15 import rule_saved
+    res = rule_saved(repo)
+    drop = lambda c: 'constraint tables' in c
+    res.findings = [f for f in res.findings if not drop(f.construct)]
+    res.instances = [i for i in res.instances if i['verdict'] != 'VIOLATED' or not drop(i['construct'])]
+    return res
+
+
+def rule_struct_registers(repo):
+    """a struct-typed register commits what was assigned: the generated bitstruct __ilshift__ / _flip stage and commit every leaf
+    exactly once and convert a foreign right-hand side the way @= does.  Shared with C06 (R-C06-leaf, R-C06-grid)."""
+    from rules.c06 import rule_leaf
+    return rule_leaf(repo)
+
+
+def rule_struct_registers_grid(repo):
+    from rules.c06 import rule_grid
+    return rule_grid(repo)
+
+
+def rule_struct_registers_wiring(repo):
+    from rules.c06 import rule_wiring
+    return rule_wiring(repo)
+
+
 RULES = [rule_effects, rule_tick_order, rule_dbuf_set, rule_flip_cover, rule_init, rule_ffset, rule_ff_not_comb,
-         rule_next_in_range, rule_writes_detected, rule_meta_cache]
+         rule_next_in_range, rule_writes_detected, rule_meta_cache, rule_struct_registers, rule_struct_registers_grid, rule_struct_registers_wiring, rule_replace_marks_registers]
 
 
 def _m(name, file, old, new, rule=None, count=1):
@@ -848,9 +813,9 @@ MUTANTS = [
     _m('clone-copies-next', BITS, "  def clone( self ):\n    return _new_valid_bits( self._nbits, self._uint )", "  def clone( self ):\n    return _new_valid_bits( self._nbits, self._next )", 'R-C07-effects'),
     _m('int-reads-next', BITS, "  def uint( self ):\n    return self._uint", "  def uint( self ):\n    return self._next", 'R-C07-effects'),
     _m('imatmul-touches-next', BITS, "      self._uint = v.to_bits()._uint\n", "      self._uint = self._next = v.to_bits()._uint\n", 'R-C07-effects'),
-    _m('struct-ilshift-aliases', STRUCTS, 'return [ f"self.{prefix} <<= other.{prefix}" ]', 'return [ f"self.{prefix} = other.{prefix}" ]', 'R-C07-effects'),
-    _m('struct-flip-skips-list', STRUCTS, "        ilshift_strs.extend( ils )\n        flip_strs.extend( fls )\n      return ilshift_strs, flip_strs", "        ilshift_strs.extend( ils )\n      return ilshift_strs, flip_strs", 'R-C07-effects'),
-    _m('struct-flip-swapped', STRUCTS, "  cls.__ilshift__, cls._flip = _mk_ff_fn( fields )", "  cls._flip, cls.__ilshift__ = _mk_ff_fn( fields )", 'R-C07-effects'),
+    _m('struct-ilshift-aliases', STRUCTS, 'return [ f"self.{prefix} <<= other.{prefix}" ]', 'return [ f"self.{prefix} = other.{prefix}" ]', 'R-C06-leaf'),
+    _m('struct-flip-skips-list', STRUCTS, "        ilshift_strs.extend( ils )\n        flip_strs.extend( fls )\n      return ilshift_strs, flip_strs", "        ilshift_strs.extend( ils )\n      return ilshift_strs, flip_strs", 'R-C06-grid'),
+    _m('struct-flip-swapped', STRUCTS, "  cls.__ilshift__, cls._flip = _mk_ff_fn( fields )", "  cls._flip, cls.__ilshift__ = _mk_ff_fn( fields )", 'R-C06-wiring'),
     _m('flip-before-ff', PREP, "    ret.extend( top._sched.schedule_ff )\n    ret.extend( top._sched.schedule_posedge_flip )", "    ret.extend( top._sched.schedule_posedge_flip )\n    ret.extend( top._sched.schedule_ff )", 'R-tick-order'),
     _m('vcd-after-flip', PREP, "    if top.has_metadata( VcdGenerationPass.vcd_func ):\n      ret.append( top.get_metadata( VcdGenerationPass.vcd_func ) )\n\n", "", 'R-tick-order') if False else
     _m('no-comb-after-edge', PREP, "    final_schedule += self.collect_ff_funcs( top )\n    final_schedule += top._sched.update_schedule\n", "    final_schedule += self.collect_ff_funcs( top )\n", 'R-tick-order'),
